@@ -178,6 +178,13 @@ func runTAB07(p *Prog, r *RuleRun) {
 					}
 					return
 				}
+				// a name that is a parameter of a local closure: every call of the closure passes a constant
+				if names, ok := closureParamStrings(c.Pkg.TypesInfo, c.File, c.Call.Args[0]); ok && len(names) > 0 {
+					for _, tn := range names {
+						checkName(c, fn, kind, tn, pos)
+					}
+					return
+				}
 				r.Unknown(ord.next(c.Encl+":"+fn.Name()+"(<dynamic>)"), pos, "metric name is not a compile-time constant; cannot be checked against MetricDefinitions")
 				return
 			}
@@ -189,6 +196,79 @@ func runTAB07(p *Prog, r *RuleRun) {
 // tableStrings: the constant strings an expression can denote when it is the range variable of a loop over a
 // composite literal (`for _, c := range []struct{name string; ...}{{"a", 1}, {"b", 2}} { f(c.name) }`, or a
 // plain []string literal).
+// closureParamStrings: e is a parameter of a function literal that is assigned to a local variable; returns the
+// constant strings passed for that parameter at every call of the variable (false if any call passes a
+// non-constant, or the literal escapes any other way we can see).
+func closureParamStrings(info *types.Info, file *ast.File, e ast.Expr) ([]string, bool) {
+	id, ok := ast.Unparen(e).(*ast.Ident)
+	if !ok {
+		return nil, false
+	}
+	obj := info.Uses[id]
+	if obj == nil {
+		return nil, false
+	}
+	var lit *ast.FuncLit
+	idx := -1
+	ast.Inspect(file, func(n ast.Node) bool {
+		fl, ok := n.(*ast.FuncLit)
+		if !ok || fl.Type.Params == nil {
+			return true
+		}
+		i := 0
+		for _, f := range fl.Type.Params.List {
+			for _, nm := range f.Names {
+				if info.Defs[nm] == obj {
+					lit, idx = fl, i
+				}
+				i++
+			}
+		}
+		return true
+	})
+	if lit == nil {
+		return nil, false
+	}
+	// the variable the literal is assigned to
+	var v types.Object
+	ast.Inspect(file, func(n ast.Node) bool {
+		as, ok := n.(*ast.AssignStmt)
+		if !ok {
+			return true
+		}
+		for i, rhs := range as.Rhs {
+			if rhs == ast.Expr(lit) && i < len(as.Lhs) {
+				if lid, ok := as.Lhs[i].(*ast.Ident); ok {
+					v = info.ObjectOf(lid)
+				}
+			}
+		}
+		return true
+	})
+	if v == nil {
+		return nil, false
+	}
+	var out []string
+	all := true
+	ast.Inspect(file, func(n ast.Node) bool {
+		ce, ok := n.(*ast.CallExpr)
+		if !ok {
+			return true
+		}
+		fid, ok := ce.Fun.(*ast.Ident)
+		if !ok || info.Uses[fid] != v || idx >= len(ce.Args) {
+			return true
+		}
+		if s, ok := constString(info, ce.Args[idx]); ok {
+			out = append(out, s)
+		} else {
+			all = false
+		}
+		return true
+	})
+	return out, all && len(out) > 0
+}
+
 func tableStrings(info *types.Info, file *ast.File, e ast.Expr) ([]string, bool) {
 	var id *ast.Ident
 	fieldName := ""
